@@ -13,6 +13,7 @@ import hashlib
 import random
 import warnings
 
+import cv2
 import numpy as np
 
 import darsia
@@ -86,6 +87,27 @@ def rng_token():
     s = np.random.get_state()
     return hashlib.sha1(repr((s[0], s[2], s[3], s[4])).encode() + np.asarray(s[1]).tobytes()).hexdigest(), \
         hashlib.sha1(repr(random.getstate()).encode()).hexdigest()
+
+
+_CV_EXPECT = {}
+
+
+def cv_rng_arm(k: int) -> None:
+    """OpenCV's global generator cannot be read; put it into a known state before a call ..."""
+    cv2.setRNGSeed(int(k) % 2**31)
+
+
+def cv_rng_untouched(k: int) -> bool:
+    """... and compare the next draw with the draw that state produces: a call that consumed or reseeded it differs."""
+    k = int(k) % 2**31
+    got = np.zeros(4, np.float64)
+    cv2.randu(got, 0.0, 1.0)
+    if k not in _CV_EXPECT:
+        cv2.setRNGSeed(k)
+        exp = np.zeros(4, np.float64)
+        cv2.randu(exp, 0.0, 1.0)
+        _CV_EXPECT[k] = exp.tobytes()
+    return got.tobytes() == _CV_EXPECT[k]
 
 
 def first_diff(a: dict, b: dict):
@@ -1018,6 +1040,7 @@ class C17Engine(Engine):
                     continue
                 before = {n: snap(o) for n, o in pool.items()}
                 rng_before = rng_token()
+                cv_rng_arm(1000 + step)
                 dep = install_depfault(op["depfault"]) if op.get("depfault") else None
                 try:
                     res, exc = fn(pool, op), None
@@ -1029,6 +1052,7 @@ class C17Engine(Engine):
                         out.counters["fault:dependency-" + ("raised" if dep[3].fired else "not-reached")] += 1
                         if dep[3].fired and exc is None:
                             out.counters["probe:call-returned-despite-dependency-failure"] += 1
+                cv_ok = cv_rng_untouched(1000 + step)
                 after = {n: snap(o) for n, o in pool.items()}
                 rng_after = rng_token()
                 out.counters["op:" + form] += 1
@@ -1095,6 +1119,8 @@ class C17Engine(Engine):
                     out.violate("C17.G", f"{label}:numpy-global-rng", step, op=op)
                 if rng_before[1] != rng_after[1]:
                     out.violate("C17.G", f"{label}:python-global-rng", step, op=op)
+                if not cv_ok:
+                    out.violate("C17.G", f"{label}:opencv-global-rng", step, op=op)
                 if form in ("add", "sub", "mul", "rmul", "lt", "gt", "eq", "le", "ge") and self._in_E_domain(pool, op):
                     try:
                         exp = numpy_expectation(pool, op)
